@@ -277,6 +277,10 @@ def tasks(tier):
   for gt in ("SGD", "RMSPROP"):
     for masked in ("no", "rank1", "dim"):
       ts.append(Task(f"graft stage and skip rules[{gt},masked={masked}]", c05.mk_tf(gt, masked, False)))
+  # "... and Sketchy by the frequent-directions root": the per-axis root values (inv_eig, inv_tail incl. the tail = 0 case)
+  from contracts import c09
+  for rank_, dim_, full_ in ((2, 0, False), (2, 1, True), (1, 0, False)):
+    ts.append(Task(f"sketchy axis root values[rank={rank_},axis={dim_},k=d:{full_}]", c09.mk_sketchy(rank_, dim_, full_)))
   for shp in ([(3,), (3, 2)] if tier == "quick" else [(3,), (3, 2), (2, 3), (2, 2, 2)]):
     ts.append(Task(f"sketchy application[shape={shp}]", mk_sketchy_apply(shp)))
   return ts
